@@ -15,6 +15,7 @@ import (
 	"sort"
 	"strings"
 	"sync"
+	"sync/atomic"
 	"time"
 
 	"github.com/nats-io/nats.go"
@@ -444,6 +445,7 @@ func storeUnanswered(s *sScript) bool {
 // storeRunAll executes the scripts on a pool of worker processes, preserving order
 func storeRunAll(scripts []*sScript, workers int) []*sScript {
 	out := make([]*sScript, len(scripts))
+	var wedged int32
 	var mu sync.Mutex
 	next := 0
 	var wg sync.WaitGroup
@@ -484,9 +486,9 @@ func storeRunAll(scripts []*sScript, workers int) []*sScript {
 				// "always answered" carries no deadline: a request left unanswered within the 4 s limit on a loaded
 				// machine is tried again on a fresh instance with a longer limit (twice); a request that wedges the
 				// store stays unanswered every time
-				for again := 0; ok && again < 2 && storeUnanswered(r); again++ {
+				for again := 0; ok && again < 2 && storeUnanswered(r) && atomic.LoadInt32(&wedged) < 3; again++ {
 					c := *scripts[i]
-					c.ReqTimeoutMs = 15000
+					c.ReqTimeoutMs = 12000
 					if w == nil {
 						var err error
 						if w, err = newStoreWorker(); err != nil {
@@ -501,6 +503,10 @@ func storeRunAll(scripts []*sScript, workers int) []*sScript {
 					}
 					r2.ReqTimeoutMs = 0
 					r = r2
+					if again == 1 && storeUnanswered(r) {
+						// unanswered three times over: this is not the machine; after three such scripts the rest is not retried
+						atomic.AddInt32(&wedged, 1)
+					}
 				}
 				if !ok {
 					// reproducibly kills or wedges the instance
